@@ -47,6 +47,9 @@ type PathnameType struct {
 // Call the function with the arguments provided.
 func (f *PathnameType) Call(s *slip.Scope, args slip.List, depth int) (result slip.Object) {
 	slip.CheckArgCount(s, depth, f, args, 1, 3)
+	if len(args) == 2 {
+		slip.ErrorPanic(s, depth, "extra arguments that are not keyword and value pairs")
+	}
 	path, ok := args[0].(slip.String)
 	if !ok {
 		slip.TypePanic(s, depth, "string", args[0], "string")
